@@ -173,16 +173,43 @@ def oracle(case):
                                   % (line, got_main, got, main, dict(ps)))]
             return []
         if t[1] == "hdr":
-            H.parse_header(unhx(t[2]).decode())
+            text = unhx(t[2]).decode()
+            m1, d1 = H.parse_header(text)
+            first = (m1, dict(d1))
+            d1.clear()
+            m2, d2 = H.parse_header(text)
+            if (m2, d2) != first:
+                return [Violation("c18-hdr-state", case, "parsing %r again after the caller changed the first result "
+                                  "gives %r, first %r" % (text[:60], (m2, d2), first))]
             return []
         if t[1] == "nego":
             text = unhx(t[2]).decode()
             got = H.parse_negotiation(text)
-            # generated lists: parse(render(items)) == items
+            # the result belongs to the caller: sorting or emptying it must not change what a later parse returns
+            import copy
+            first = copy.deepcopy(got)
+            if isinstance(got, list):
+                got.sort(key=lambda x: repr(x), reverse=True)
+                del got[1:]
+            again = H.parse_negotiation(text)
+            if repr(again) != repr(first):
+                return [Violation("c18-nego-state", case, "parsing %r again after the caller changed the first result "
+                                  "gives %r, first %r" % (text[:60], again, first))]
             return []
         if t[1] == "range":
             text = unhx(t[2]).decode()
             got = H.parse_range(text)
+            import copy
+            first = copy.deepcopy(got)
+            for v in (got.values() if isinstance(got, dict) else []):
+                if isinstance(v, list):
+                    del v[:]
+            if isinstance(got, dict):
+                got.clear()
+            got = H.parse_range(text)
+            if got != first:
+                return [Violation("c18-range-state", case, "parsing %r again after the caller changed the first result "
+                                  "gives %r, first %r" % (text[:60], got, first))]
             import re
             m = re.fullmatch(r"([a-z]+)=((\d*-\d*)(,(\d*-\d*))*)", text)
             if m and all(x != "-" for x in m.group(2).split(",")) and all(len(d) <= 4300 for d in re.findall(r"\d+", text)):
